@@ -113,6 +113,7 @@ structure Disk where
   scopes    : Nat → ScopeDisk := fun _ => {}
   syncedTo  : Nat × Nat := (0, 0)
   hashes    : List (Nat × Nat) := []
+  birthday  : Bool := false        -- a birthday block is stored (PutSyncedTo then demands the predecessor hash)
 deriving Inhabited
 
 def Disk.updScope (d : Disk) (sc : Nat) (f : ScopeDisk → ScopeDisk) : Disk :=
@@ -628,10 +629,13 @@ def markUsed (d : Disk) (m : Mem) (sc : Nat) (k : AKey) : Disk × Mem :=
   (d.updScope sc (fun s => { s with used := if s.used.contains k then s.used else k :: s.used }),
    m.updScope sc (fun s => { s with addrs := adel s.addrs k }))
 
-def setSyncedTo (d : Disk) (m : Mem) (h hash : Nat) : Disk × Mem :=
-  let hs := aset d.hashes h hash
-  let hs := if h > MAXREORG then adel hs (h - MAXREORG) else hs
-  ({ d with hashes := hs, syncedTo := (h, hash) }, { m with syncedTo := (h, hash) })
+def setSyncedTo (d : Disk) (m : Mem) (h hash : Nat) : Disk × Mem × Option Err :=
+  -- PutSyncedTo: once the birthday block is known, the hash of height h-1 must be stored
+  if h > 0 && d.birthday && (aget d.hashes (h - 1)).isNone then (d, m, some .blockNotFound)
+  else
+    let hs := aset d.hashes h hash
+    let hs := if h > MAXREORG then adel hs (h - MAXREORG) else hs
+    ({ d with hashes := hs, syncedTo := (h, hash) }, { m with syncedTo := (h, hash) }, none)
 
 /-! ### private accessors -/
 
@@ -774,6 +778,7 @@ inductive Op where
   | importScript (sc kind sid : Nat) (secret : Bool)
   | markUsed (sc : Nat) (k : AKey)
   | setSynced (h hash : Nat)
+  | setBirthday                               -- SetBirthdayBlock (database only)
   | privKey (sc : Nat) (k : AKey)            -- Address(k) then PrivKey()/ExportPrivKey()
   | lastPrivKey (sc acct : Nat) (internal : Bool)   -- Last{Ext,Int}ernalAddress then PrivKey()
   | script (sc : Nat) (k : AKey)             -- Address(k) then Script()
@@ -801,7 +806,7 @@ def ofErr : Option Err → Res
 /-- is this op one that writes to the database (needs a read-write transaction)? -/
 def Op.writes : Op → Bool
   | .changePass .. | .convertWO | .newAccount .. | .rename .. | .next .. | .extend .. | .importKey ..
-  | .importScript .. | .markUsed .. | .setSynced .. => true
+  | .importScript .. | .markUsed .. | .setSynced .. | .setBirthday => true
   | _ => false
 
 /-- the op itself, inside whatever transaction is current (`s.disk` is the transaction's view) -/
@@ -831,7 +836,9 @@ def exec (s : State) (m : Mem) : Op → State × Res
   | .importScript sc kind sid sec =>
     let r := importScript s.disk m sc kind sid sec; ({ s with disk := r.1, mem := some r.2.1 }, ofErr r.2.2)
   | .markUsed sc k => let r := markUsed s.disk m sc k; ({ s with disk := r.1, mem := some r.2 }, .ok)
-  | .setSynced h x => let r := setSyncedTo s.disk m h x; ({ s with disk := r.1, mem := some r.2 }, .ok)
+  | .setSynced h x =>
+    let r := setSyncedTo s.disk m h x; ({ s with disk := r.1, mem := some r.2.1 }, ofErr r.2.2)
+  | .setBirthday => ({ s with disk := { s.disk with birthday := true } }, .ok)
   | .privKey sc k =>
     match addressOf s.disk m sc k with
     | .error e => (s, .err e)
